@@ -383,6 +383,7 @@ def _execute(world_cls, seed, knobs, ops, S, wall_limit=RUN_WALL_LIMIT):
         except ValueError:  # not main thread
             old = None
     step = -1
+    _seed_libraries(world_cls.PROP, seed)
     try:
         try:
             if generate:
@@ -445,6 +446,19 @@ def _execute(world_cls, seed, knobs, ops, S, wall_limit=RUN_WALL_LIMIT):
         res.step,
     )
     return res
+
+
+def _seed_libraries(prop, seed):
+    """Seam S5: library RNG state a run could otherwise inherit from whatever
+    the worker process did before (numpy's global generator, quimb's
+    per-thread generators used e.g. by randomised norm estimates)."""
+    s = hash_int("libs", prop, seed) % (2**31)
+    np.random.seed(s)
+    random.seed(s)
+    qu = sys.modules.get("quimb")
+    if qu is None:
+        import quimb as qu
+    qu.seed_rand(s)
 
 
 def run_seed(world_cls, seed):
